@@ -62,6 +62,7 @@ def ion_rich(rng):
 def run(run: Run) -> int:
     pt = import_repo()
     from periodictable.formulas import formula
+    from periodictable.core import isatom as core_isatom
     tbl = pt.elements
     run.prove(generated=["ElementBase"])
     syms = symbols_from_source()
@@ -112,6 +113,26 @@ def run(run: Run) -> int:
                           got=[k for _, k in hs], expected=order_h)
         if not (h.hill == h):
             run.violation("taking the Hill form twice changes it", inp)
+        # Hill form after further operations on formulas whose Hill form was already read
+        kmul = run.rng.choice([2, 3, 0.5, 10])
+        other = formula(pyside.struct_objs(ion_rich(run.rng), tbl))
+        for label, obj in (("n*f", kmul * f), ("f+g", f + other), ("copy", formula(f))):
+            if label == "copy":
+                obj += other
+                label = "copy+=g"
+            hh = obj.hill
+            gotc = {}
+            for c, fr in hh.structure:
+                if core_isatom(fr):
+                    k = pyside.key_of(fr)
+                    gotc[k] = gotc.get(k, 0) + c
+            wantc = {pyside.key_of(a): c for a, c in obj.atoms.items()}
+            if set(gotc) != set(wantc) or any(not close(wantc[k], gotc[k]) for k in wantc):
+                run.violation("Hill form of %s (after f.hill was read) has different atom counts" % label, inp,
+                              got=str(gotc), expected=str(wantc))
+            if [pyside.key_of(fr) for _, fr in hh.structure if core_isatom(fr)] != \
+                    sorted(wantc, key=lambda k: oracle_key(k, syms)):
+                run.violation("Hill form of %s not in Hill order" % label, inp)
         t = twin(run.rng, s)
         g = formula(pyside.struct_objs(t, tbl))
         if g.atoms == f.atoms and not (g.hill == h):
